@@ -14,6 +14,8 @@ def parseOp : List String → Option Op
   | ["sendptr", _, _, b] => (decStr b).map .sendStanza     -- Send(&stanza): a stanza like any other
   | ["req", _, b] => (decStr b).map .req
   | ["inmsg"] => some .inbound
+  | ["newsession", "same"] => some .resumed
+  | ["newsession", _] => some .freshSession
   | _ => none
 
 def showObs (o : Obs) : String :=
